@@ -274,6 +274,24 @@ example : seqsOf 86400000 true ⟨"n", 800000000005⟩ Keeper.empty
      .clean 800000000200, .upd ⟨"n", 800000000005⟩ 800000000300] = [0, 1] := by
   decide +kernel
 
+/-- A NON-MONOTONE history of one source: creation times T, T+1000, T again (and T-1000, and the
+epoch in between). The counter is keyed by (source, time), so the third submission continues the
+count of the first: numbers 0, 0, 1, 0, 0 and five distinct ids. The hypotheses of `ids_distinct`
+hold for it (all times are inside the window or the epoch). -/
+def nonMonoSubs : Nat → Sub := fun i =>
+  ⟨i, ⟨"n", [800000002000, 800000003000, 800000002000, 800000001000, 0].getD i 0⟩, 7, 800000004000, [7]⟩
+
+example :
+    let n := run Cfg.code nonMonoSubs (Node.init nonMonoSubs Keeper.empty) (seqSchedule Cfg.code 5)
+    (List.range 5).map (fun i => (idOf nonMonoSubs n i).seq) = [0, 0, 1, 0, 0] ∧
+    ((List.range 5).map (idOf nonMonoSubs n)).Nodup ∧ n.store.length = 5 := by decide +kernel
+
+example : ∀ i j, dropped Cfg.code.window (nonMonoSubs i).now (nonMonoSubs j).key = false := by
+  intro i j
+  apply retained_epoch_or_recent
+  simp only [nonMonoSubs, Cfg.code]
+  rcases j with _ | _ | _ | _ | _ | j <;> simp
+
 example : stampedPc Cfg.code = 4 ∧ (prog Cfg.code).idxOf .push + 1 = 7 := by decide
 
 /-- After `[step 0, step 1, step 0]` thread 0 is inside `update` and thread 1 is still waiting. -/
